@@ -141,10 +141,48 @@ def short_rule_probe(chk):
             mgmt.run_cases(chk, kind, [([], True, ops)], spec_check, label=f"short-grouping-rule-{kn}", compare_model=False)
 
 
+def reload_model_probe(chk):
+    """auto-save is the USER's switch: with auto-save off the adapter is not written until save_policy - also after the
+    model (and the policy) were reloaded in between.  Implementation-level SPEC on an enforcer built from a model file."""
+    import os
+    import tempfile
+    import casbin
+    n = 0
+    with tempfile.TemporaryDirectory(prefix="c09_") as d:
+        for kn in ("acl", "rbac"):
+            kind = mgmt.KINDS[kn]
+            mp = os.path.join(d, kn + ".conf")
+            with open(mp, "w") as f:
+                f.write(kind.model_text())
+            for steps in (["load_model", "load_policy"], ["load_policy"], ["load_model"], ["load_model", "load_policy", "load_model", "load_policy"]):
+                e = casbin.Enforcer(mp)
+                ad = mgmt.RecAdapter([("p", ["alice", "data1", "read"])])
+                e.set_adapter(ad)
+                e.load_policy()
+                e.enable_auto_save(False)
+                for st in steps:
+                    getattr(e, st)()
+                ad.calls = []
+                r1 = e.add_policy("bob", "data2", "write")
+                r2 = e.remove_policy("alice", "data1", "read") if "load_policy" in steps else None
+                r3 = e.add_policies([["carol", "data1", "read"], ["carol", "data2", "read"]])
+                n += 1
+                chk.count(("auto-save-off-across-reload", kn, tuple(steps)))
+                writes = [c for c in ad.calls if c[0] != "save"]
+                if writes:
+                    chk.spec_fail(dict(stratum="auto-save-off-across-reload", kind=kn, steps_after_enable_auto_save_False=steps,
+                                       calls=["add_policy", "remove_policy", "add_policies"]),
+                                  dict(results=[r1, r2, r3], adapter_calls=[list(map(str, c)) for c in writes][:4]), "no adapter write",
+                                  "the adapter was written although auto-save is off (the switch did not survive a model/policy reload)")
+                    break
+    chk.extra.setdefault("strata", {})["auto_save_off_across_reload"] = n
+
+
 def run(chk, n):
     rng = chk.rng
     known_probe(chk)
     short_rule_probe(chk)
+    reload_model_probe(chk)
     for kn in ("acl", "rbac", "dom", "rbac_res", "prio"):
         cases = make_cases(rng, kn, n)
         by_kind = {}
